@@ -141,3 +141,19 @@ Theorem C07_stale_last_refuted : exists outs o c,
   c_mono c = r_mono o /\ c_mono c < r_mono o + 3 * 4.
 Proof. do 3 eexists. vm_compute. repeat split. Qed.
 Print Assumptions C07_stale_last_refuted.
+
+(* The named residue.  The theorems above are about exact time; binary64 is
+   not exact: at an epoch-sized clock reading `_start + tock` is rounded to a
+   multiple of 2^-22 s and restart() reuses the rounded duration, so with tock
+   1/3 s twelve cycles take 4 - 2^-20 s of true time, 0.95 us less than 12 tocks.
+   (Same model, float instance -- the one the correspondence runs against the
+   real code bit for bit.) *)
+From Coq Require Import PrimFloat.
+Example C07_binary64_residue : exists outs o,
+  let tock := 0x1.5555555555555p-2%float in
+  play VSync 4 0x1.954fc4007e6b4p+30%float tock [] []
+       [{| i_pre := (0%float, 0%float); i_tock := None; i_works := repeat (0%float, 0%float) 12 |}] = Some outs /\
+  nth_error outs 0 = Some o /\
+  PrimFloat.ltb (r_end_mono o) (PrimFloat.mul 12 tock) = true /\
+  PrimFloat.ltb (PrimFloat.sub (PrimFloat.mul 12 tock) 0x1p-19) (r_end_mono o) = true.
+Proof. do 2 eexists. vm_compute. repeat split. Qed.
